@@ -1213,7 +1213,7 @@ class Exec:
       raise Unsupported("wp.tid() outside an assignment")
     if fs in ("wp.printf", "wp.print", "print"):
       return None
-    if self.contract_mode and fs in ("old", "implies", "iff", "bit", "ite"):
+    if self.contract_mode and fs in ("old", "implies", "iff", "bit", "ite", "forall", "exists"):
       return self.contract_call(fs, e, fr)
     callee = self.eval(e.func, fr)
     if e.keywords and not isinstance(callee, (FuncRef, TypeCtor)):
@@ -1231,6 +1231,23 @@ class Exec:
         return self.eval(e.args[0], fr)
       finally:
         self.st.arrs = saved
+    if fn in ("forall", "exists"):
+      # forall(x, body) / forall((x, y), body): x ranges over the integers
+      names = [n.id for n in (e.args[0].elts if isinstance(e.args[0], ast.Tuple) else [e.args[0]])]
+      qv = [z3.Int(f"{n}!q{next(self.fresh_ctr)}") for n in names]
+      saved_env = {n: fr.env.get(n, None) for n in names}
+      had = {n: n in fr.env for n in names}
+      for n, v in zip(names, qv):
+        fr.env[n] = v
+      try:
+        body = zb(tobool(self.eval(e.args[1], fr)))
+      finally:
+        for n in names:
+          if had[n]:
+            fr.env[n] = saved_env[n]
+          else:
+            fr.env.pop(n, None)
+      return z3.ForAll(qv, body) if fn == "forall" else z3.Exists(qv, body)
     a = [self.eval(x, fr) for x in e.args]
     if fn == "implies":
       return z3.Implies(zb(tobool(a[0])), zb(tobool(a[1])))
